@@ -561,6 +561,12 @@ func (l *Ledger) ConfirmBlock(block *pb.InternalBlock, isRoot bool) ConfirmStatu
 	blkTimer := timer.NewXTimer()
 	l.xlog.Info("start to confirm block", "blockid", utils.F(block.Blockid), "txCount", len(block.Transactions))
 	var confirmStatus ConfirmStatus
+	defer func() {
+		if !confirmStatus.Succ {
+			// headers modified by a confirmation that did not commit must not stay in the cache
+			l.blkHeaderCache = cache.NewLRUCache(BlockCacheSize)
+		}
+	}()
 	dummyTransactions := []*pb.Transaction{}
 	realTransactions := block.Transactions // 真正的交易转存到局部变量
 	block.Transactions = dummyTransactions // block表不保存transaction详情
